@@ -275,6 +275,154 @@ pub fn check_mutant(c: &mutate::MutCase, st: &mut Stats) -> Check {
     pipeline(&b, c.key, st).map_err(|f| f.with(json!({"mapping": show_bytes(&b), "hex": hex(&b)})))
 }
 
+/// Inputs whose *depth* (not content) is the hazard: thousands of array dimensions, junk characters in front of a
+/// type, parentheses, very long single lines. They only go to APIs that are iterative on the unchanged tree
+/// (signature strings, trace text, mapping bytes) — never to the typed-trace API, which recurses per cause level by
+/// design. They run in a child process: a stack overflow aborts the process and cannot be caught as a panic.
+pub fn deep_inputs(thorough: bool) -> Vec<(char, String)> {
+    let mut v = Vec::new();
+    let ns: &[usize] = if thorough { &[4096, 20_000, 100_000, 1_000_000] } else { &[4096, 20_000, 100_000] };
+    for &n in ns {
+        for s in [
+            format!("({}I)V", "[".repeat(n)),
+            format!("(){}La/a;", "[".repeat(n)),
+            format!("({}I)V", "x".repeat(n)),
+            format!("(I){}J", "x".repeat(n)),
+            format!("({}I)V", "(".repeat(n)),
+            format!("(L{};)V", "a/".repeat(n)),
+            format!("({})V", "La;".repeat(n)),
+            format!("({})V", "L".repeat(n)),
+        ] {
+            v.push(('s', s));
+        }
+        for t in [
+            format!("a.b: {}", ": ".repeat(n)),
+            format!("    at {}(F:1)", "a.".repeat(n)),
+            format!("    at a.b({}:1)", "(".repeat(n)),
+            format!("{}", "Caused by: ".repeat(n)),
+            format!("{}a.b: c", "\t".repeat(n)),
+            "Caused by: a.b: c\n".repeat(n),
+            "    at a.b(F:1)\n".repeat(n),
+        ] {
+            v.push(('t', t));
+        }
+        for m in [
+            format!("{} -> a:\n    void m() -> b\n", "x.".repeat(n)),
+            format!("a.B -> a:\n    {}:1:void m() -> b\n", "1".repeat(n)),
+            format!("a.B -> a:\n    void m({}) -> b\n", "(".repeat(n)),
+            format!("# {}\n", ":".repeat(n)),
+            format!("{}", "#".repeat(n)),
+            format!("a.B -> a:\n{}", "    1:1:void m():1 -> b\n".repeat(n.min(100_000))),
+        ] {
+            v.push(('m', m));
+        }
+    }
+    v
+}
+
+/// child side: answer every deep input, print one line per input
+pub fn deep_child_main() -> i32 {
+    use std::io::Write;
+    let thorough = std::env::args().any(|a| a == "thorough");
+    let base = STRINGS_MAPPING.as_bytes();
+    let m = match mapper(base, true) {
+        Ok(m) => m,
+        Err(_) => return 3,
+    };
+    let buf = match write_cache(base) {
+        Ok(b) => b,
+        Err(_) => return 3,
+    };
+    let cache = match parse_cache(&buf) {
+        Ok(c) => c,
+        Err(_) => return 3,
+    };
+    let out = std::io::stdout();
+    let mut out = out.lock();
+    for (i, (kind, s)) in deep_inputs(thorough).iter().enumerate() {
+        // announce first: if the process dies, the parent knows which input it was working on
+        let _ = writeln!(out, "BEGIN {i}");
+        let _ = out.flush();
+        match kind {
+            's' => {
+                let _ = m.sig(s);
+                let _ = cache.sig(s);
+            }
+            't' => {
+                let _ = m.text(s);
+                let _ = cache.text(s);
+                let _ = proguard::StackFrame::try_parse(s.as_bytes());
+                let _ = proguard::Throwable::try_parse(s.as_bytes());
+            }
+            _ => {
+                let mp = proguard::ProguardMapping::new(s.as_bytes());
+                let _ = mp.iter().count();
+                let _ = mp.has_line_info();
+                let _ = mp.is_valid();
+                let _ = mp.summary().class_count();
+                let mm = proguard::ProguardMapper::new_with_param_mapping(mp.clone(), true);
+                let _ = mm.remap_class("a");
+                let mut v = Vec::new();
+                let _ = proguard::ProguardCache::write(&mp, &mut v);
+            }
+        }
+        let _ = writeln!(out, "END {i}");
+        let _ = out.flush();
+    }
+    let _ = writeln!(out, "DONE");
+    0
+}
+
+/// parent side
+pub fn check_deep(thorough: bool, st: &mut Stats) -> Check {
+    let inputs = deep_inputs(thorough);
+    let exe = std::env::current_exe().map_err(|e| Fail::new("harness-io", e.to_string()))?;
+    let mut cmd = std::process::Command::new(exe);
+    cmd.arg("deep-child").arg("C13");
+    if thorough {
+        cmd.arg("thorough");
+    }
+    let outp = cmd.output().map_err(|e| Fail::new("harness-io", format!("cannot run the deep-input child: {e}")))?;
+    let text = String::from_utf8_lossy(&outp.stdout).to_string();
+    let ended = text.lines().filter(|l| l.starts_with("END ")).count();
+    st.evaluations += ended as u64;
+    for i in 0..ended {
+        st.nontrivial(0xdee9_0000 + i as u64);
+    }
+    st.class_n("deep inputs answered in a child process", ended as u64);
+    if outp.status.success() && text.lines().any(|l| l == "DONE") && ended == inputs.len() {
+        return Ok(());
+    }
+    // which input was in flight?
+    let last_begin = text.lines().rev().find_map(|l| l.strip_prefix("BEGIN ").and_then(|n| n.parse::<usize>().ok()));
+    let what = last_begin.and_then(|i| inputs.get(i)).map(|(k, s)| {
+        let kind = match k {
+            's' => "signature string",
+            't' => "trace text",
+            _ => "mapping bytes",
+        };
+        format!("{kind} of {} bytes starting {:?}", s.len(), crate::engine::truncate(s, 60))
+    });
+    let stderr = String::from_utf8_lossy(&outp.stderr);
+    let abnormal = outp.status.code().is_none() || stderr.contains("overflowed its stack");
+    if outp.status.code() == Some(3) {
+        // the child could not even set up its fixed mapping: not a verdict about deep inputs
+        st.skipped.push("deep-input child could not build its fixed mapping".into());
+        return Ok(());
+    }
+    Err(Fail::new(
+        if abnormal { "query-aborts-process" } else { "deep-child-failed" },
+        format!(
+            "the process answering deep inputs ended with {} after {ended} of {} inputs; in flight: {}; stderr: {}",
+            outp.status,
+            inputs.len(),
+            what.unwrap_or_else(|| "unknown".into()),
+            crate::engine::truncate(stderr.trim(), 300)
+        ),
+    )
+    .with(json!({"in_flight_index": last_begin, "thorough": thorough})))
+}
+
 #[derive(Clone, Debug, Serialize, Deserialize)]
 pub struct StringsCase {
     pub texts: Vec<String>,
@@ -332,7 +480,7 @@ pub fn check_strings(c: &StringsCase, st: &mut Stats) -> Check {
 
 pub fn run(ctx: &Ctx) -> Report {
     let mut rep = Report::new(ID, "exploration", ctx);
-    rep.rule = "Cases: generated mappings with injected hostile lines (every numeric slot drawn from {0,1,2,5,9,2^32-2..2^32+1,2^33,2^63-1,2^63,2^64-2,2^64-1,2^64,41 digits, leading zeros, Latin-1 'numeric' bytes}; empty / dotted / non-ASCII names; empty sourceFile names), hostile token mutants (incl. invalid UTF-8), raw bytes. Pipeline per case: iter, is_valid, has_line_info, summary, uuid, ProguardMapper::new and new_with_param_mapping, ProguardCache::write into a Vec, parse, then on mapper, mapper-with-params and cache: class / throwable / method / frame by line (0,1,2,2^32-1..2^32+1,2^63,2^64-2,2^64-1 and every range boundary of the file) / frame by params / text traces (generated, hand-picked edge cases, arbitrary Unicode) / StackTrace::try_parse + typed remap + Display / deobfuscate_signature + format_signature on strings with multi-byte characters at every slice boundary. Oracle: no panic (overflow checks on), and write, parse, remap_stacktrace return Ok. evaluations = pipelines run. Non-trivial = distinct cases with >=1 method record and a query that reaches it.".into();
+    rep.rule = "Cases: generated mappings with injected hostile lines (every numeric slot drawn from {0,1,2,5,9,2^32-2..2^32+1,2^33,2^63-1,2^63,2^64-2,2^64-1,2^64,41 digits, leading zeros, Latin-1 'numeric' bytes}; empty / dotted / non-ASCII names; empty sourceFile names), hostile token mutants (incl. invalid UTF-8), raw bytes. Pipeline per case: iter, is_valid, has_line_info, summary, uuid, ProguardMapper::new and new_with_param_mapping, ProguardCache::write into a Vec, parse, then on mapper, mapper-with-params and cache: class / throwable / method / frame by line (0,1,2,2^32-1..2^32+1,2^63,2^64-2,2^64-1 and every range boundary of the file) / frame by params / text traces (generated, hand-picked edge cases, arbitrary Unicode) / StackTrace::try_parse + typed remap + Display / deobfuscate_signature + format_signature on strings with multi-byte characters at every slice boundary. Deep inputs (4096 .. 10^6 array dimensions / junk characters / nested parentheses / path segments / repeated lines, for the iterative APIs only) are answered in a child process. Oracle: no panic (overflow checks on), no abnormal process end (a stack overflow aborts and cannot be caught), and write, parse, remap_stacktrace return Ok. evaluations = pipelines run. Non-trivial = distinct cases with >=1 method record and a query that reaches it.".into();
     rep.assumptions = vec!["harness profile has overflow-checks=on and debug-assertions=on for the crate under test".into()];
     rep.run_stage("hostile", hostile_case, ctx.cases(40_000, 1_800_000), check_hostile);
     let cfg = GenCfg { plain_sourcefile_headers: true, ..GenCfg::default() };
@@ -347,6 +495,15 @@ pub fn run(ctx: &Ctx) -> Report {
             f
         })
     });
+    {
+        let thorough = ctx.tier == crate::engine::Tier::Thorough;
+        let mut dst = Stats::new();
+        dst.cases += 1;
+        if let Err(f) = check_deep(thorough, &mut dst) {
+            rep.fail("deep", json!({"thorough": thorough}), f);
+        }
+        rep.stats.merge(dst);
+    }
     rep.run_stage("strings", strings_case, ctx.cases(40_000, 1_800_000), check_strings);
     rep.run_stage(
         "bytes",
@@ -368,6 +525,7 @@ pub fn replay(stage: &str, case: &Value) -> Check {
             let (file, _) = super::scale::build(c.kind, c.n);
             pipeline_opt(&file.render(&crate::gen::mapping::Render::default()), 7, &mut st, true)
         }
+        "deep" => check_deep(case["thorough"].as_bool().unwrap_or(false), &mut st),
         "strings" => check_strings(&serde_json::from_value(case.clone()).map_err(de)?, &mut st),
         "bytes" => {
             let c: RawCase = serde_json::from_value(case.clone()).map_err(de)?;
